@@ -23,6 +23,7 @@ HOSTILE = [
     "0x110000", 'u"a"', "for", "None", "1,2", "a,b", ";", "'a' 'b'", '"""', "\\x", "DD.DD", "1...2...3", "5...1",
     "  'a'\n 'b'", "\t'a'\n  'b'", "rot13", "base64", "hex", "utf-16", "utf-32", "zlib", "idna", "punycode", "undefined", "utf-8-sig", "unicode_escape",
     "...5,7...", "...5, 7...", "1...,...9", "It's", "a.b 'c",
+    "\\\nkind < 3", "kind\\\n < 3", "id,\\\nname", "\\\n5", "1e30", "9" * 23,
     ",", ",,", '"\\x"', "'\\'", '"\\u12"', '"\\N{x}"', '"\\"', "...,", ",1", "1,", "a,", "- ,", "0x1,0x", "%%", "\\", "[", "]]", "(?i", "a**", "x{2,1}",
 ]
 # a sound first token followed by something the tokenizer or the parser rejects right there
